@@ -253,6 +253,8 @@ func (blockchain *Blockchain) InitChain(req abciTypes.RequestInitChain) abciType
 
 	lastHeight := initialHeight
 	blockchain.appDB.SetLastHeight(lastHeight)
+	// transactions of the first block are executed at Height()+1
+	atomic.StoreUint64(&blockchain.height, lastHeight)
 
 	blockchain.appDB.SetEmission(helpers.StringToBigInt(genesisState.Emission))
 
